@@ -30,7 +30,8 @@ ASSUMPTIONS = [
     "without a netlist; the model gets the very string handed to Die; the YAML loader and the file system are Section variables of "
     "the model, instantiated per case with the file the harness wrote and with the tree the generated text was rendered from (number "
     "spellings restricted to those ruamel's safe loader reads as the same number: int, point, exponent, sign, '_' between digits)",
-    "read_yaml is modelled after fixes/C01-stream-handle.diff (the unrepaired isinstance(stream, typing.TextIO) refuses every real stream)",
+    "read_yaml is modelled as repaired by fixes/C19-read-yaml-stream.diff (the original isinstance(stream, typing.TextIO) refused every "
+    "real stream: C01/valid-rejected-stream) and fixes/C19-read-yaml-text.diff (a str with a line break is a YAML text even without ': ')",
     "non-ASCII digits / spaces in the string form and exponents beyond binary64 range are not generated",
 ]
 
@@ -442,11 +443,15 @@ def render_text(case):
             lines.append("---")
         for k, v in tree.items():
             nested = (k == "regions" and isinstance(v, list) and v and all(isinstance(u, list) and u for u in v))
-            if nested and rd["style"] in ("seq", "nested"):
+            if rd["style"] == "nextline" and not (nested and isinstance(v, list)):
+                lines.append(f"{k}:")                           # no ': ' anywhere: the text is recognised by its line breaks
+                lines.append(f"  {yaml_scalar(rng, v)}")
+                continue
+            if nested and rd["style"] in ("seq", "nested", "nextline"):
                 ind = rng.choice(["", "  "])
                 lines.append(f"{k}:")
                 for u in v:
-                    if rd["style"] == "seq" or not all(not isinstance(z, list) for z in u):
+                    if rd["style"] in ("seq", "nextline") or not all(not isinstance(z, list) for z in u):
                         lines.append(f"{ind}- {yaml_scalar(rng, u)}")
                     else:
                         for n, z in enumerate(u):
@@ -480,7 +485,7 @@ def choose_form(rng, case, tree):
         return                                                # dict / single, as chosen before
     if case["form"] == "single":
         case["form"] = "dict"
-    case["render"] = {"seed": rng.randrange(10 ** 6), "style": rng.choice(["block", "seq", "nested", "flow"])}
+    case["render"] = {"seed": rng.randrange(10 ** 6), "style": rng.choice(["block", "seq", "nested", "flow", "nextline"])}
     if x < 0.78:
         case["form"] = "text"
     elif x < 0.9:
@@ -504,7 +509,8 @@ def gen_badstring(rng):
     a, b = spell_number(rng, W, "string"), spell_number(rng, H, "string")
     kind = rng.choice(["sep", "sep", "part", "part", "part", "nonpos", "nonpos", "inf"])
     if kind == "sep":
-        raw = rng.choice([a + "X" + b, a + "*" + b, a + " by " + b, a + "xx" + b, a + "x" + b + "x8", a + b, "x", a + "x"])
+        raw = rng.choice([a + "X" + b, a + "*" + b, a + " by " + b, a + "xx" + b, a + "x" + b + "x8", a + b, "x", a + "x",
+                          a + "\nby " + b, a + "x\n" + b + "x", a + "X" + b + "\n"])
     elif kind == "part":
         bad = rng.choice(BAD_PARTS)
         raw = bad + "x" + b if rng.random() < 0.5 else a + "x" + bad
